@@ -244,6 +244,7 @@ type joeScenario struct {
 	shuts    []string // trigger: "p<k>" after publication k returned, "end", "t<us>"; suffix "!" = context already cancelled / cancelled soon
 	jitter   int
 	gomaxprx int
+	cold     bool // every goroutine makes its first call on the never-used Joe at the same instant (spin barrier)
 }
 
 func topicStr(t int) string {
@@ -394,6 +395,7 @@ func drawScenario(rng *rand.Rand, big bool) joeScenario {
 			sc.shuts = append(sc.shuts, tr)
 		}
 	}
+	sc.cold = rng.Intn(6) == 0
 	return sc
 }
 
@@ -411,7 +413,7 @@ func (sc joeScenario) String() string {
 		}
 		return strings.Join(x, "|")
 	}
-	return fmt.Sprintf("rep=%s;auto=%s;subs=%s;pubs=%s;shuts=%s;jitter=%d", sc.rep, b01(sc.auto), j(subs), j(pubs), j(sc.shuts), sc.jitter)
+	return fmt.Sprintf("rep=%s;auto=%s;subs=%s;pubs=%s;shuts=%s;jitter=%d;cold=%s", sc.rep, b01(sc.auto), j(subs), j(pubs), j(sc.shuts), sc.jitter, b01(sc.cold))
 }
 
 func errName(err error, k int) string {
@@ -628,6 +630,23 @@ func runJoe(args []string) string {
 		pubDone[p] = make(chan struct{})
 	}
 	allPubs := make(chan struct{})
+	// cold start: the first calls on the never-used Joe (its lazy initialisation) all at once
+	var gate atomic.Int32
+	var gateSize int32
+	{
+		gs := map[int]bool{}
+		for _, pb := range sc.pubs {
+			gs[pb.group] = true
+		}
+		gateSize = int32(len(sc.subs) + len(gs) + len(sc.shuts))
+	}
+	enterGate := func() {
+		if sc.cold {
+			gate.Add(1)
+			for gate.Load() < gateSize {
+			}
+		}
+	}
 	waitTrigger := func(tr string) {
 		tr = strings.TrimPrefix(strings.TrimSuffix(tr, "!"), "b")
 		switch {
@@ -673,6 +692,7 @@ func runJoe(args []string) string {
 		wg.Add(1)
 		go func(i int, s joeSub) {
 			defer wg.Done()
+			enterGate()
 			waitTrigger(s.startAt)
 			if s.cancel == "start" {
 				t.mu.Lock()
@@ -711,6 +731,7 @@ func runJoe(args []string) string {
 		go func(ps []int) {
 			defer wg.Done()
 			defer pwg.Done()
+			enterGate()
 			for _, p := range ps {
 				t.perturb()
 				clock.Add(int64(sc.pubs[p].tick) * int64(joeClockUnit))
@@ -736,6 +757,9 @@ func runJoe(args []string) string {
 	var burstSize int32
 	shutdown := func(k int, tr string) {
 		defer wg.Done()
+		if k < len(sc.shuts) {
+			enterGate()
+		}
 		waitTrigger(tr)
 		ctx, cancel := context.WithCancel(context.Background())
 		defer cancel()
@@ -796,6 +820,20 @@ func runJoe(args []string) string {
 	}
 	t.mu.Lock()
 	defer t.mu.Unlock()
+	// of all the Shutdown calls exactly one closes `done` (and returns nil or its context's error): if every call
+	// returned ErrProviderClosed, somebody was told "already shut down" by a Joe nobody had shut down
+	nShut, nWon := 0, 0
+	for _, ev := range t.ev {
+		if strings.HasPrefix(ev, "hR") {
+			nShut++
+			if !strings.HasSuffix(ev, ":closed") {
+				nWon++
+			}
+		}
+	}
+	if nShut > 0 && nWon == 0 {
+		t.fact("EVERY-SHUTDOWN-RETURNED-CLOSED")
+	}
 	if !strings.Contains(strings.Join(t.facts, ","), "BLOCKED") { // (a blocked Publish may still be running)
 		for p, m := range msgs {
 			if now := m.String() + "|" + m.ID.String() + "|" + fmt.Sprint(m.ID.IsSet()); now != before[p] {
